@@ -30,7 +30,8 @@ RULE = ("every wrapper class discovered by inspect in pypika.terms/functions/ana
         "window classes in the thorough tier; one complete frame block (2 kinds x (19 single + 361 BETWEEN) bounds) "
         "[exhaustive over frame shapes x bound set: true]; a block over every ordered pair of filter-criterion shapes "
         "(simple/OR/AND/XOR/AND-over-OR, one call or two) and a block of DISTINCT with arguments/criteria containing the "
-        "wrapper's own NAME( "
+        "wrapper's own NAME( ; branching construction histories (a base wrapper specialised 2-3 times, each member of the "
+        "family incl. the base compared with the model on its own call history, derivation and rendering order varied) "
         "[exhaustive over frame shapes x bound set: true]; random Function/CustomFunction calls with 0-6 arguments; "
         "malformed stream: unsupported clause methods, second frame, filter() without criteria or with only EmptyCriterion "
         "arguments, frames without over(), CustomFunction arity "
@@ -503,7 +504,33 @@ def build(case):
                       alias=case.get("alias") if case.get("alias_ctor", True) else None, schema=schema)
     if case.get("alias") and not case.get("alias_ctor", True):
         w = w.as_(case["alias"])
-    for op in case["ops"]:
+    br = case.get("branch")
+    if not br:
+        return apply_ops_impl(w, case["ops"])
+    # branching construction history: a base object (constructor + the first `prefix` calls) is kept in a variable and
+    # specialised several times; every derived object and the base must render its OWN call history
+    n = br["prefix"]
+    base = apply_ops_impl(w, case["ops"][:n])
+    sibs = [None] * len(br["others"])
+
+    def derive(j):
+        try:
+            sibs[j] = apply_ops_impl(base, br["others"][j])
+        except Exception as ex:  # noqa - a sibling that pypika refuses is recorded, not fatal
+            sibs[j] = "!" + type(ex).__name__
+    before = br.get("before", len(sibs))
+    for j in range(min(before, len(sibs))):
+        derive(j)
+    own = apply_ops_impl(base, case["ops"][n:])
+    for j in range(min(before, len(sibs)), len(sibs)):
+        derive(j)
+    case["_family"] = (base, sibs)
+    return own
+
+
+def apply_ops_impl(w, ops):
+    from pypika.enums import Order
+    for op in ops:
         k = op[0]
         if k == "distinct":
             w = w.distinct()
@@ -539,11 +566,55 @@ def render_kwargs(case):
 
 
 def run_impl(case):
+    case = dict(case)
     try:
         w = build(case)
-        return {"text": w.get_sql(**render_kwargs(case)), "name": w.name}
+        kw = render_kwargs(case)
+        fam = case.pop("_family", None)
+        if fam is None:
+            return {"text": w.get_sql(**kw), "name": w.name}
+
+        def txt(o):
+            if isinstance(o, str):
+                return o
+            try:
+                return o.get_sql(**kw)
+            except Exception as ex:  # noqa
+                return "!" + type(ex).__name__
+        base, sibs = fam
+        order = case["branch"].get("render", "own-first")
+        out = {"name": w.name}
+        if order == "own-first":
+            out["text"] = txt(w)
+            out["siblings"] = [txt(x) for x in sibs]
+            out["base"] = txt(base)
+        elif order == "own-last":
+            out["base"] = txt(base)
+            out["siblings"] = [txt(x) for x in sibs]
+            out["text"] = txt(w)
+        else:   # siblings in reverse, own in the middle, base twice (rendering must not change anything either)
+            first = txt(base)
+            out["siblings"] = [txt(x) for x in reversed(sibs)][::-1]
+            out["text"] = txt(w)
+            out["base"] = txt(base)
+            if out["base"] != first:
+                out["base"] = "!unstable: %s | %s" % (first, out["base"])
+        return out
     except Exception as ex:  # noqa
         return {"text": "!" + type(ex).__name__, "msg": str(ex)[:200]}
+
+
+def family_cases(case, outcome):
+    """the single-history cases a branching case implies: the base and every sibling with its own call history"""
+    br = case.get("branch")
+    if not br or "siblings" not in outcome:
+        return []
+    plain = {k: v for k, v in case.items() if k != "branch"}
+    n = br["prefix"]
+    out = [(dict(plain, ops=case["ops"][:n]), {"text": outcome["base"], "name": outcome.get("name")}, "base")]
+    for j, (ops, t) in enumerate(zip(br["others"], outcome["siblings"])):
+        out.append((dict(plain, ops=case["ops"][:n] + ops), {"text": t, "name": outcome.get("name")}, "sibling%d" % j))
+    return out
 
 
 # ==============================================================================================
@@ -904,8 +975,44 @@ def filter_block(rng):
     return out
 
 
+def branch_block(rng, tier):
+    """branching construction histories: a base wrapper (constructor + a prefix of clause calls) kept in a variable and
+    specialised 2-3 times; every member of the family (base included) takes the role of the object compared with the
+    model, the others are derived before/after it and rendered before/after it"""
+    out = []
+    reps = 2 if tier == "quick" else 8
+    for e in catalogue():
+        names = [n for n in flag_names(e) if n not in ("alias", "schema")]
+        if not names or not e["probes"]:
+            continue
+        small = [p for p in e["probes"] if len(p[0]) <= 2] or e["probes"][:1]
+        for _ in range(reps):
+            kinds, slots, special = rng.choice(small)
+            args = pick_args(rng, kinds, True, special, e["cls"])
+            prefix = clause_ops(rng, e, {n: rng.random() < 0.35 for n in names})
+            branches = []
+            for j in range(rng.choice([2, 2, 3])):
+                chosen = rng.sample(names, min(len(names), rng.choice([1, 1, 2])))
+                ops = clause_ops(rng, e, {n: True for n in chosen})
+                # distinguishable window terms per branch
+                for op in ops:
+                    if op[0] in ("over", "orderby"):
+                        op[1] = [[t[0], t[1] + 20 * (j + 1)] for t in op[1]]
+                branches.append(ops)
+            family = branches + [[]]                      # the base itself is a member
+            for i, own in enumerate(family):
+                others = [b for k2, b in enumerate(family) if k2 != i and b != []]
+                c = base_case(e, kinds, args)
+                c["ops"] = prefix + own
+                c["ro"] = {"with_alias": False}
+                c["branch"] = {"prefix": len(prefix), "others": others, "before": rng.randrange(len(others) + 1),
+                               "render": rng.choice(["own-first", "own-last", "mixed"])}
+                out.append(c)
+    return out
+
+
 def gen_cases(rng, tier):
-    out = frame_block(rng) + distinct_block(rng) + filter_block(rng) + wrapper_cases(rng, tier)
+    out = frame_block(rng) + distinct_block(rng) + filter_block(rng) + branch_block(rng, tier) + wrapper_cases(rng, tier)
     out += generic_cases(rng, 300 if tier == "quick" else 4000)
     out += malformed_cases(rng, 150 if tier == "quick" else 1500)
     if tier != "quick":
@@ -927,6 +1034,14 @@ def corpus():
         # fixed (b2a2b7a): CustomFunction without declared params ignored its call arguments
         {"mod": "pypika.terms", "cls": "CustomFunction", "name": "CF", "params": None, "args": [["field", 0], ["field", 1]],
          "ops": [], "ro": {}},
+        # red-team seed C18-11: a base window specialised twice must not share its ORDER BY / PARTITION BY / FILTER lists
+        {"mod": "pypika.analytics", "cls": "Sum", "args": s0, "ops": [["over", [["field", 0]]], ["orderby", [["field", 31]], None]], "ro": {},
+         "branch": {"prefix": 1, "others": [[["orderby", [["field", 32]], "desc"]]], "before": 1, "render": "own-last"}},
+        {"mod": "pypika.analytics", "cls": "Rank", "args": [], "ops": [["orderby", [["field", 30]], None], ["orderby", [["field", 31]], "asc"]], "ro": {},
+         "branch": {"prefix": 1, "others": [[["orderby", [["field", 32]], None]], [["over", [["field", 33]]]]], "before": 0, "render": "own-first"}},
+        {"mod": "pypika.analytics", "cls": "Sum", "args": s0, "ops": [["over", [["field", 0]]]], "ro": {},
+         "branch": {"prefix": 1, "others": [[["orderby", [["field", 32]], None]], [["filter", [0]], ["over", [["field", 34]]]]], "before": 2,
+                    "render": "mixed"}},
         # red-team seeds C18-1/2/4: DISTINCT once; OR criterion inside a conjunction; fractional offsets
         {"mod": "pypika.functions", "cls": "Sum", "args": [["selfcall", 0, "SUM"]], "ops": [["distinct"]], "ro": {}},
         {"mod": "pypika.functions", "cls": "Count", "args": s0, "ops": [["distinct"], ["filter", [["fncrit", "COUNT", 0]]]], "ro": {}},
@@ -1144,6 +1259,18 @@ def _expected_exception(case):
 
 
 def oracle(case, outcome):
+    """own history, and - for a branching case - the base's and every sibling's own history"""
+    V = list(_oracle_one(case, outcome))
+    for c2, o2, role in family_cases(case, outcome):
+        for v in _oracle_one(c2, o2):
+            v = dict(v)
+            v["what"] = "[%s of a branching history: base = first %d calls, own = %s, others = %s] %s" % (
+                role, case["branch"]["prefix"], case["ops"][case["branch"]["prefix"]:], case["branch"]["others"], v["what"])
+            V.append(v)
+    return V
+
+
+def _oracle_one(case, outcome):
     if "harness_exc" in outcome:
         return [{"signature": ["C18", case["cls"], "harness", "crash"], "what": outcome["harness_exc"]}]
     text = outcome["text"]
@@ -1379,6 +1506,8 @@ def histogram(cases):
                 for b in (op[1], op[2]):
                     if b is not None:
                         inc("bound=" + (b[0] if b[0] == "cur" else "%s:%s" % (b[0], b[1][1] if isinstance(b[1], list) else b[1])))
+        if c.get("branch"):
+            inc("branching")
         if c.get("alias"):
             inc("alias")
         if c.get("schema"):
